@@ -58,7 +58,11 @@ ObsMatches(s, t, ev) ==
 
 TInit == l = 1 /\ InitPred
 
-T_Reset == IsEv("reset") /\ Set(InitState)
+\* a new connection, made from the configuration script the event carries;
+\* eff: what the getters of the configuration object said
+T_Reset == /\ IsEv("reset")
+           /\ Rec[l].eff = StRun(Rec[l].conf)
+           /\ Set(InitState(Rec[l].conf))
 
 T_Step == /\ l <= Len(Rec) /\ Rec[l].ev # "reset" /\ l' = l + 1
           /\ LET t == After(Cur, Rec[l])
